@@ -28,7 +28,27 @@ FUNCS = {
     "only_except": (NW.only_except, ["only_except"]), "declared": (NW.declared, ["declared"]),
     "method": (NW.Holder.method, ["Holder", "method"]), "static": (NW.Holder.static, ["Holder", "static"]),
     "genfn": (NW.genfn, ["genfn"]),
+    "total": (NW.total, ["total"]), "report": (NW.report, ["report"]), "annotated": (NW.annotated, ["annotated"]),
 }
+
+
+def plainly_assigned(fn):
+    """names bound by an assignment / loop / with / import in the function's own body (not only by def or class)"""
+    import ast
+    import textwrap
+    tree = ast.parse(textwrap.dedent(inspect.getsource(fn))).body[0]
+    names = set()
+
+    def walk(node, top):
+        for ch in ast.iter_child_nodes(node):
+            if isinstance(ch, (ast.FunctionDef, ast.AsyncFunctionDef, ast.ClassDef, ast.Lambda, ast.ListComp, ast.SetComp,
+                               ast.DictComp, ast.GeneratorExp)):
+                continue
+            if isinstance(ch, ast.Name) and isinstance(ch.ctx, ast.Store):
+                names.add(ch.id)
+            walk(ch, False)
+    walk(tree, True)
+    return names
 METAS_OK = ["#enter", "#exit", "#value", "#error", "#yield", "#receive"]
 METAS_BAD = ["#nope", "#values", "#return"]
 FRESH = ["zz_nowhere", "qq_fresh"]
@@ -90,6 +110,7 @@ def main():
                 if s.get_name() not in fx:
                     nested.add(s.get_name())
         env = {fname: fn}
+        plain_names = plainly_assigned(fn)
         idents = [(n, k) for n, k in fx.items()] + [(n, "absent") for n in FRESH] + [(n, "absent") for n in sorted(nested)] \
             + [(n, "meta-ok") for n in METAS_OK] + [(n, "meta-bad") for n in METAS_BAD]
         for ident, kind in idents:
@@ -99,7 +120,9 @@ def main():
             sym = fx.get(ident)
             if kind == "local":
                 s = st.lookup(ident)
-                sub = "def-or-class" if s.is_namespace() else ("imported" if s.is_imported() else "")
+                sub = "def-or-class" if s.is_namespace() and ident not in plain_names else ("imported" if s.is_imported() else "")
+            if not ident.isascii():
+                sub = "non-ascii"
             if kind == "global" and ident == fname:
                 sub = "own-name"
             if kind == "global" and hasattr(builtins, ident):
